@@ -98,6 +98,8 @@ def scripts(draw, tier):
         # slowly converging long run: the tolerance sits just above the deviation of an evaluation between the 60th and the 77th, which is
         # then the first one to meet the rule
         c["tol_near"] = {"j": draw(st.integers(55, 72)), "sign": draw(st.sampled_from([1, 1, 1, -1])), "delta": draw(st.sampled_from([1e-8, 1e-6, 1e-3]))}
+    if not long_ and draw(st.integers(0, 3)) == 0:
+        c["clear_at"] = c["se"] + draw(st.integers(1, 8))      # re-entrant use: evaluator.clear_history() called from a callback at the start of this epoch
     c["second_same_quantity"] = draw(st.booleans())  # another stopper on the SAME evaluator (other quantity, other patience, tolerance 0: never fires)
     return c
 
@@ -132,6 +134,8 @@ def reference(c, E, L=None, counter=None):
     counter = [len(L)] if counter is None else counter       # index into the script = evaluations made so far (survives clear_history)
     p, tol = c["patience"], c["tol"]
     for e in range(c.get("se", 1), E + 1):
+        if c.get("clear_at") is not None and e == c["clear_at"]:
+            del L[:]                # a user callback clears the evaluator's history at the start of this epoch (inside the running fit)
         def evaluate():
             i = counter[0]
             if i >= len(c["vals"]):
@@ -278,6 +282,9 @@ def check(c):
         stoppers = [es2, es] if c["second_stopper"] == "before" else [es, es2]
         labels.append("second_stopper")
     cb_list = (stoppers + [ev, rec]) if c.get("stopper_first") else ([ev] + stoppers + [rec])
+    if c.get("clear_at") is not None:
+        cb_list = [LambdaCallback(on_epoch_start=lambda s_, e_: ev.clear_history() if e_ == c["clear_at"] else None)] + cb_list
+        labels.append("history_cleared_inside_fit")
     if len(c["vals"]) <= 6 and int(abs(c["vals"][0]) * 1000) % 3 == 0:
         # re-entrant use: a further callback makes public library calls on the trained state (and trains another state) from inside the hooks
         from vf import gen as _gen
